@@ -115,11 +115,24 @@ def canonsort_shape():
     return ob
 
 
-def shape_obligation(oid, target, needles, what):
+def shape_obligation(oid, target, needles, what, exact=False):
     mod, node = source.find(target)
     ob = Obligation(oid, target, "fin", UNDECIDED, lines=source.lines_of(node))
     if node is None:
         ob.detail = "function not found"
+        return ob
+    # the needles are whole statements and, taken together, have to BE the body in this order (a body that only adds a statement, e.g. a
+    # shuffle before the loop, is outside the rule as well); a needle may be a prefix of a compound statement's first line
+    body = []
+    for st in source.strip_docstring(node.body):
+        body += ast.unparse(st).split("\n")
+    body = [x.strip() for x in body]
+    if exact:
+        if body != [n.strip() for n in needles]:
+            i = next((k for k in range(min(len(body), len(needles))) if body[k] != needles[k].strip()), min(len(body), len(needles)))
+            ob.detail = f"statement {i + 1} is `{body[i] if i < len(body) else '<end>'}`, the rule expects `{needles[i].strip() if i < len(needles) else '<end>'}`: outside the shape rule"
+        else:
+            ob.status, ob.detail = PROVED, what
         return ob
     s = ast.unparse(node)
     missing = [n for n in needles if n not in s]
@@ -205,11 +218,14 @@ def run(rep: common.Report):
     rep.add(shape_obligation(f"{PID}.canonsort.sorted_keys_uses_canonical_order", "caselessdict:CaselessDict.sorted_keys",
                              ["return canonsort_keys(self.keys(), self.canonical_order)"], "sorted_keys = canonsort_keys(keys, class canonical_order)"))
     rep.add(shape_obligation(f"{PID}.params.sorted_by_name", "parser:Parameters.to_ical",
-                             ["items = list(self.items())", "if sorted:", "items.sort()", "for key, value in items:", "return b';'.join(result)"],
-                             "parameters are emitted in the order of the sorted (name, value) items when sorted, else insertion order"))
+                             ["result = []", "items = list(self.items())", "if sorted:", "items.sort()", "for key, value in items:", "value = param_value(value)",
+                              "if isinstance(value, str):", "value = value.encode(DEFAULT_ENCODING)", "key = key.upper().encode(DEFAULT_ENCODING)",
+                              "result.append(key + b'=' + value)", "return b';'.join(result)"],
+                             "parameters are emitted in the order of the sorted (name, value) items when sorted, else insertion order", exact=True))
     rep.add(shape_obligation(f"{PID}.order.content_lines_follow_property_items", "cal:Component.content_lines",
-                             ["for name, value in self.property_items(sorted=sorted):", "cl = self.content_line(name, value, sorted=sorted)",
-                              "contentlines.append(cl)"], "one content line per property item, in that order, sorted flag handed down"))
+                             ["contentlines = Contentlines()", "for name, value in self.property_items(sorted=sorted):",
+                              "cl = self.content_line(name, value, sorted=sorted)", "contentlines.append(cl)", "contentlines.append('')", "return contentlines"],
+                             "one content line per property item, in that order, sorted flag handed down", exact=True))
     rep.add(shape_obligation(f"{PID}.order.property_items_hands_sorted_down", "cal:Component.property_items",
                              ["properties += subcomponent.property_items(sorted=sorted)"], "subcomponents are serialised with the same sorted flag"))
     # ---- frame + determinism over everything reachable from Component.to_ical
